@@ -13,22 +13,26 @@ import numpy as np
 LEVEL = "proof"
 MANIFEST_ENTRY = {
     "category": "proof",
-    "text": "Lean 4 theorems (20, over the reals) about one executable model (generic numeric carrier, run at Float) of BOTH the torch port "
+    "text": "Lean 4 theorems (36, over the reals) about one executable model (generic numeric carrier, run at Float) of BOTH the torch port "
             "(radon_torch, get_fourier_filter_torch, iradon_torch) and the scikit-image reference (radon circle mode, _get_fourier_filter, "
             "iradon linear): the sampling coordinates of the two Radon algorithms coincide for every size >= 2, angle and pixel (grid_sample "
             "normalisation round trip, rotation about N//2), hence every sinogram sample agrees; the six Fourier filters coincide bin by bin "
             "for every size >= 2 (torch vs numpy window formulas, linspace end point); the back-projection interpolants (floor/clamp/blend/"
             "zero-outside vs np.interp left=right=0) coincide for every detector size and every real position, hence iradonTorch = iradonSk "
-            "for every sinogram, angle set (given or default), filter and circle flag; the Radon transform is linear and the back-projection "
-            "is linear in the filtered rows (every size/angle set); a batched call is the per-image call; the 0-degree projection is the "
-            "column sum of the disc-masked image. The pre-fix conventions (reflected rotation, end-point cosine window, extrapolating "
+            "for every sinogram, angle set (given or default), filter and circle flag; the list executables agree (radonTorch img = radonSk of "
+            "the disc-masked image); both transforms are linear IN FULL on lists of equal shape (radon; iradon including circle-to-square "
+            "padding, the FFT filtering step via DFT linearity, interpolation, mask and scaling) for torch port and reference; the padded FFT "
+            "size is the least power of two >= max(64, 2N), filter/row lengths and output shape are as stated; masking is idempotent; the "
+            "sinogram of the image rotated by 90 degrees about (N//2, N//2) is the sinogram shifted by 90 degrees (reference: every N; torch: "
+            "odd N, with the even-N mask counterexample); a batched call is the per-image call; the 0-degree projection is the column sum "
+            "of the disc-masked image. The pre-fix conventions (reflected rotation, end-point cosine window, extrapolating "
             "interpolant) are kept as legacy definitions with their exact agreement domain and a counterexample each. The model is tied to "
             "the code on every run by Float correspondence with the real torch code and with the real scikit-image (1e-9), and the property "
             "predicate (agreement with scikit-image, batched = single, linearity, 0-degree column sums, forward projection inside "
             "TomographyConv._sirt_run_epoch) is evaluated on the implementations as the failing-input search.",
     "note": "Partial by nature: numerical agreement torch-vs-skimage is measured (sizes 2..33, 1..8 angles, 6 filters, batches 1..3, circle "
-            "on/off, default and given angles); what is proved is that the two algorithms as modelled are the same real function. Linearity "
-            "of the FFT filtering step of iradon is measured only (iradon_linear_partial proves the back-projection part). Trusted: "
+            "on/off, default and given angles); what is proved is that the two algorithms as modelled are the same real function, linear, "
+            "with the stated symmetries. Batching is by construction in the model (per-item map) and measured on torch. Trusted: "
             "grid_sample(align_corners=True, zeros) and skimage warp(order=1, constant) are zero-padded bilinear interpolation; torch/scipy "
             "fft compute the DFT sum; IEEE rounding. float64 images (radon_torch raises a dtype error), N=1 (scikit-image itself fails) and "
             "explicit output_size are outside the checked domain.",
